@@ -11,7 +11,7 @@ _BASE = {}
 def build_hist_net():
     import pandapower as pp
     from ..templates import build_calc_net
-    net = build_calc_net(())
+    net = build_calc_net(("usergens",))
     pp.create_switch(net, 1, 0, et="l", closed=False)      # sA: line 0 (b0-b1) at b1, initially open
     pp.create_switch(net, 1, 1, et="l")      # sB: line 1 (b1-b2) at b1
     return net
@@ -25,6 +25,8 @@ def apply_step(net, a, last=False):
         net.switch.at[0, "closed"] = not bool(net.switch.at[0, "closed"])
     elif op == "toggleB":
         net.switch.at[1, "closed"] = not bool(net.switch.at[1, "closed"])
+    elif op == "toggleG":
+        net.gen.at[0, "in_service"] = not bool(net.gen.at[0, "in_service"])
     elif op == "load":
         net.load.at[1, "p_mw"] = 1.6 if net.load.at[1, "p_mw"] < 1.5 else 1.0
     else:
@@ -49,13 +51,35 @@ def apply_step(net, a, last=False):
     return None
 
 
+EDITS = ("toggleA", "toggleB", "load", "toggleG")
+ACT = (("res_gen", "p_mw"), ("res_gen", "vm_pu"), ("res_line", "p_from_mw"), ("res_line", "p_to_mw"), ("res_trafo", "p_hv_mw"),
+       ("res_ext_grid", "p_mw"), ("res_load", "p_mw"))
+ANG = (("res_gen", "va_degree"),)
+REA = (("res_gen", "q_mvar"), ("res_line", "q_from_mvar"), ("res_line", "loading_percent"), ("res_trafo", "q_hv_mvar"),
+       ("res_ext_grid", "q_mvar"), ("res_load", "q_mvar"))
+
+
+def _flat(net, cols):
+    out = []
+    for t, c in cols:
+        try:
+            out.extend(fx(x) for x in net[t][c].values)
+        except OverflowError:
+            raise
+        except Exception:  # noqa   (table or column missing)
+            out.append(-777)
+    return out
+
+
 def project(net, ok):
     conv = ok is True and bool(net.get("converged", False))
     if not conv:
-        return {"conv": False, "vm": [], "va": [], "p": [], "q": [], "err": ok if isinstance(ok, str) else ""}
+        return {"conv": False, "vm": [], "va": [], "p": [], "q": [], "act": [], "ang": [], "rea": [],
+                "err": ok if isinstance(ok, str) else ""}
     rb = net.res_bus
     return {"conv": True, "vm": [fx(x) for x in rb.vm_pu.values], "va": [fx(x) for x in rb.va_degree.values],
-            "p": [fx(x) for x in rb.p_mw.values], "q": [fx(x) for x in rb.q_mvar.values], "err": ""}
+            "p": [fx(x) for x in rb.p_mw.values], "q": [fx(x) for x in rb.q_mvar.values],
+            "act": _flat(net, ACT), "ang": _flat(net, ANG), "rea": _flat(net, REA), "err": ""}
 
 
 def observe(hist):
@@ -65,7 +89,7 @@ def observe(hist):
     fresh = copy.deepcopy(_BASE["net"])
     for a in hist[:-1]:
         apply_step(net, a)
-        if a["op"] in ("toggleA", "toggleB", "load"):
+        if a["op"] in EDITS:
             apply_step(fresh, a)
     last = hist[-1]
     cp = copy.deepcopy(net)
@@ -92,7 +116,7 @@ def run(tier, seed, replay=None):
             with open(os.path.join(SPEC_DIR, "History.cfg")) as fh:
                 cfg = fh.read()
                 if tier == "thorough":
-                    cfg = re.sub(r"UseOps = .*", 'UseOps = {"toggleA", "toggleB", "load", "runpp", "rundcpp", "runopp", '
+                    cfg = re.sub(r"UseOps = .*", 'UseOps = {"toggleA", "toggleB", "load", "toggleG", "runpp", "rundcpp", "runopp", '
                                  '"calc_sc", "runpp_3ph"}', cfg)
                     cfg = re.sub(r"UseInits = .*", 'UseInits = {"auto", "flat", "dc", "results"}', cfg)
             with open(os.path.join(wd, "History.cfg"), "w") as fh:
@@ -125,8 +149,8 @@ def run(tier, seed, replay=None):
         v.violation(key, "%s after history %s: live conv=%s %s, copy conv=%s, fresh conv=%s" % (
             name, [a["op"] + ("/" + a["init"] if a["init"] != "-" else "") for a in h], c["live"]["conv"],
             c["live"]["err"], c["copy"]["conv"], c["fresh"]["conv"]), c)
-    nontriv = sum(1 for c in cases if any(a["op"] in ("toggleA", "toggleB", "load") for a in c["hist"][:-1])
-                  and any(a["op"] not in ("toggleA", "toggleB", "load") for a in c["hist"][:-1]))
+    nontriv = sum(1 for c in cases if any(a["op"] in EDITS for a in c["hist"][:-1])
+                  and any(a["op"] not in EDITS for a in c["hist"][:-1]))
     v.coverage = {
         "states": states + st["states"], "transitions": trans + st["generated"],
         "traces_validated_against_impl": len(cases), "exhaustive": True, "evaluations": len(cases),
@@ -134,8 +158,8 @@ def run(tier, seed, replay=None):
         "rule": "every history of <=4 steps over %s that ends in a power flow; the last step is also run on a deep copy "
                 "and on a freshly built net with the same element state; non-trivial = >=1 edit and >=1 earlier "
                 "calculation before the last step" % (
-                    "{toggle sA, toggle sB, change load, runpp(init auto/results), rundcpp, runopp}" if tier == "quick" else
-                    "{toggle sA, toggle sB, change load, runpp(init auto/flat/dc/results), rundcpp, runopp, calc_sc, runpp_3ph}"),
+                    "{toggle sA, toggle sB, change load, toggle gen, runpp(init auto/results), rundcpp, runopp}" if tier == "quick" else
+                    "{toggle sA, toggle sB, change load, toggle gen, runpp(init auto/flat/dc/results), rundcpp, runopp, calc_sc, runpp_3ph}"),
         "live_converged": sum(c["live"]["conv"] for c in cases),
         "samples": [cases[k] for k in range(5, len(cases), max(1, len(cases) // 3))][:3],
     }
